@@ -320,6 +320,12 @@ func (env *Env) evalIdent(name string) (*Val, error) {
 	if name == "nil" {
 		return mathVal("0", "Int"), nil
 	}
+	if name == "visited" && env.fr != nil && env.loop != nil {
+		if v := env.lookupSSA(name); v != nil {
+			return v, nil
+		}
+		return env.visitedSet(0)
+	}
 	if env.fr != nil {
 		if v := env.lookupSSA(name); v != nil {
 			return v, nil
@@ -860,6 +866,12 @@ func (env *Env) evalCall(x *ECall) (*Val, error) {
 						return nil, err
 					}
 					return e.bytesOf(env.st, v)
+				}
+			}
+		case "visited":
+			if env.fr != nil && len(x.Args) == 1 {
+				if n, ok := x.Args[0].(*ENum); ok && n.V.IsInt64() {
+					return env.visitedSet(int(n.V.Int64()))
 				}
 			}
 		case "zero":
